@@ -402,6 +402,12 @@ void generate(const std::string &, Rng &wl, Rng &fl, Case &c)
   int ntasks     = (int)wl.range(2, 3);
   bool deep      = wl.chance(0.2);
   c.stratum      = deep ? "deep_stack" : "mixed";
+  // allocator seam: in half of the runs a freed address is handed out again at once (a token
+  // or frame that is compared by address must not match an unrelated, newer context)
+  bool reuse = fl.chance(0.5);
+  c.set("alloc_lifo", reuse);
+  if (reuse)
+    c.stratum += ".addr_reuse";
   int next_slot  = kBase;
   for (int t = 0; t < ntasks; ++t)
   {
